@@ -20,7 +20,7 @@ HIST = ["root_attach", "punctuation_root", "punctuation_verylow", "punctuation_s
 
 
 def one(rng, with_past=False):
-    ts = gram.gen_treebank(rng)
+    ts = gram.gen_treebank(rng, bare=True)
     past = []
     if with_past:
         # trees with a past: produced by a reader, looked at (gap degrees, a first extraction), changed in place since
